@@ -415,7 +415,7 @@ sum of all fields at the global coordinate `(i - S0/2, j - S1/2)` — any number
 partly inside or outside the array -/
 theorem field_eq_sum (S0 S1 : Int) (data : List (Fld K)) (i j : Int) (hi : 0 ≤ i ∧ i < S0) (hj : 0 ≤ j ∧ j < S1) :
     (wfField 1 S0 S1 data).get i j = sumList data (fun f => f.emb (i - S0 / 2) (j - S1 / 2)) := by
-  unfold wfField
+  rw [wfField_eq]
   suffices h : ∀ (out : Arr K), out.s0 = S0 → out.s1 = S1 →
       (data.foldl (fun out f => insertArr f out 1) out).get i j
         = out.get i j + sumList data (fun f => f.emb (i - S0 / 2) (j - S1 / 2)) by
@@ -466,7 +466,7 @@ example : reduce [Witness.a55] = [Witness.a55].map some ∧
 /-- `Wavefront.insert(out, weight)` in terms of what `reduce` returns (`gs`) -/
 theorem wfInsert_of_reduce (nsq : K → K) (data gs : List (Fld K)) (hred : reduce data = gs.map some) (out : Arr K) (w : K) :
     wfInsert nsq data out w = some (gs.foldl (fun o g => insertArr g o w nsq) out) := by
-  unfold wfInsert; rw [hred]; clear hred
+  rw [wfInsert_eq, hred]; clear hred
   induction gs generalizing out with
   | nil => rfl
   | cons g gs ih =>
@@ -476,7 +476,7 @@ theorem wfInsert_of_reduce (nsq : K → K) (data gs : List (Fld K)) (hred : redu
 /-- when `wfInsert` returns, `reduce` returned fields only (it always does: `wavefront_insert_defined`) -/
 theorem wfInsert_some (nsq : K → K) (data : List (Fld K)) (out out' : Arr K) (w : K)
     (h : wfInsert nsq data out w = some out') : ∃ gs : List (Fld K), reduce data = gs.map some := by
-  unfold wfInsert at h
+  rw [wfInsert_eq] at h
   generalize reduce data = l at h
   have hnone : ∀ (l : List (Option (Fld K))), l.foldl (insertStep nsq w) none = none := by
     intro l; induction l with
@@ -506,7 +506,8 @@ theorem wavefront_insert_defined (nsq : K → K) (data : List (Fld K)) (out : Ar
 
 /-- and so does `Wavefront.intensity` -/
 theorem intensity_defined (nsq : K → K) (S0 S1 : Int) (data : List (Fld K)) :
-    ∃ I, wfIntensity 1 nsq S0 S1 data = some I := wavefront_insert_defined nsq data _ 1
+    ∃ I, wfIntensity 1 nsq S0 S1 data = some I := by
+  rw [wfIntensity_eq]; exact wavefront_insert_defined nsq data _ 1
 
 /-- **`Wavefront.insert(out, weight)` adds `weight * |field|^2` and nothing else**: whenever the call returns, every
 sample of the target is its prior content plus `weight` times the squared modulus of the *coherent sum* of all fields at
